@@ -72,17 +72,24 @@ SPECIAL_GEOMS = [(1, 1), (1, 37), (41, 1), (15, 15), (16, 16), (17, 17), (15, 33
 # Raw (and every encoder that can fall back to Raw) cannot send a row wider than UPDATE_BUF_SIZE bytes:
 # the server closes the connection (reported separately, not a C01 matter) -> widths up to 8192 px only
 BIG_GEOMS = [(2049, 3), (2100, 5), (4100, 2), (300, 230), (1100, 61), (3, 2200), (8192, 1), (260, 260), (2048, 33)]
-KINDS = ["flat", "pal", "runs", "vruns", "blocks", "outlier", "grad", "noise", "photo"]
+KINDS = ["flat", "pal", "runs", "vruns", "blocks", "outlier", "grad", "noise", "photo", "tiles", "tiles"]
 NCOLS = [1, 2, 3, 4, 5, 16, 17, 126, 127, 128, 129, 255]
 
 
 # ------------------------------------------------------------------ generator
-def gen_paint(rng, W, H, big):
+def gen_paint(rng, W, H, big, lossy=False):
     """paint ops covering the whole screen + a few overlays"""
     ops = []
-    k = rng.choice(KINDS if not big else ["flat", "pal", "runs", "blocks", "outlier", "grad", "vruns", "noise"])
+    if lossy:
+        # lossy variants are exercised on the content they are meant for (smooth / flat areas)
+        k = rng.choice(["photo", "photo", "grad", "flat", "blocks", "outlier"])
+        return ["paint %s %d 0 0 %d %d %d 0" % (k, rng.randrange(1 << 30), W, H, rng.choice([2, 5, 200]))]
+    k = rng.choice(KINDS if not big else ["flat", "pal", "runs", "blocks", "outlier", "grad", "vruns", "noise", "tiles"])
     n = rng.choice(NCOLS)
     flags = (1 if rng.random() < 0.25 else 0) | (rng.choice([0, 0, 3, 40, 300, 700]) << 4)
+    if k == "tiles":
+        n = rng.choice([2, 3, 3, 4, 6, 17, 130])
+        flags = (flags & 1) | (rng.choice([16, 16, 64, 8, 5]) << 4)
     ops.append("paint %s %d 0 0 %d %d %d %d" % (k, rng.randrange(1 << 30), W, H, n, flags))
     for _ in range(rng.choice([0, 0, 1, 2, 4])):
         w = rng.randint(1, W)
@@ -141,7 +148,7 @@ def gen_script(rng, tier, force=None):
     nupd = force.get("nupd", rng.choice([3, 3, 4, 6]) if not big else 3)
     for u in range(nupd):
         if u == 0 or rng.random() < 0.7:
-            lines += gen_paint(rng, W, H, big)
+            lines += gen_paint(rng, W, H, big, lossy)
         if u > 0 and rng.random() < 0.3:
             # incremental update of marked areas -> multi-rectangle update regions
             for _ in range(rng.randint(1, 3)):
@@ -155,8 +162,65 @@ def gen_script(rng, tier, force=None):
             # switch the encoding in mid-connection (zlib streams of the old one must stay intact)
             e2 = rng.choice(LOSSLESS_ENCS)
             lines.append("enc %d %d" % (ENC[e2], -256 + rng.randint(0, 9)))
-    meta = {"sb": sb, "W": W, "H": H, "enc": encname, "fmt": fname, "big": big, "lossy": lossy}
+    meta = {"sb": sb, "W": W, "H": H, "enc": encname, "fmt": fname, "big": big, "lossy": lossy,
+            "quality": force.get("quality")}
     return "\n".join(lines) + "\n", meta
+
+
+def boundary_scripts(rng):
+    """hand-picked geometries at the limits of the encoders' buffers and splitting rules"""
+    out = []
+
+    def mk(sb, W, H, enc, fmt, paints, extra_enc=(), reqs=None):
+        lines = ["screen %d %d %d" % (W, H, sb), "client"]
+        if fmt != "server":
+            lines.append("fmt " + " ".join(str(v) for v in FORMATS[fmt]))
+        lines.append("enc " + " ".join(str(e) for e in (ENC[enc],) + tuple(extra_enc)))
+        for i, pk in enumerate(paints):
+            lines.append("paint %s %d 0 0 %d %d %d %d" % (pk[0], rng.randrange(1 << 30), W, H, pk[1], pk[2]))
+            for (x, y, w, h) in (reqs or [(0, 0, W, H)]):
+                lines.append("req 0 %d %d %d %d" % (x, y, w, h))
+        out.append(("\n".join(lines) + "\n", {"sb": sb, "W": W, "H": H, "enc": enc, "fmt": fmt, "big": W * H > 20000, "lossy": False, "boundary": True}))
+
+    # Raw: updateBuf filled exactly (2048*4*4 = 32768; 16-byte lines: 2048 lines per batch), widest line
+    mk(4, 2048, 33, "raw", "server", [("noise", 1, 0), ("runs", 5, 0)])
+    mk(4, 4, 4300, "raw", "server", [("noise", 1, 0)])
+    mk(4, 8192, 3, "raw", "server", [("grad", 1, 0)])
+    mk(2, 64, 300, "raw", "rgb888le", [("noise", 1, 0)])
+    mk(1, 128, 300, "raw", "rgb565be", [("pal", 200, 0)])
+    # RRE: many sub-rectangles (afterEncBuf copy loop across several buffer fills), raw fallback next to success
+    mk(4, 260, 260, "rre", "server", [("blocks", 6, 700 << 4), ("pal", 2, 0), ("noise", 1, 0)])
+    mk(1, 300, 230, "rre", "bgr233", [("runs", 3, 40 << 4), ("tiles", 3, 16 << 4)])
+    # CoRRE: splitting at 48 and at a 255 limit
+    mk(4, 97, 97, "corre", "rgb565le", [("blocks", 5, 60 << 4), ("tiles", 4, 16 << 4)])
+    mk(2, 49, 145, "corre", "server", [("tiles", 3, 8 << 4)])
+    # Hextile: tile-state sequences, buffer flush between tiles (2048 wide = 128 tiles per row)
+    mk(4, 2049, 17, "hextile", "server", [("tiles", 3, 16 << 4), ("tiles", 2, 16 << 4)])
+    mk(2, 1100, 61, "hextile", "rgb888be", [("tiles", 4, 16 << 4)])
+    mk(1, 33, 33, "hextile", "rgb332", [("tiles", 3, 16 << 4), ("noise", 1, 0), ("tiles", 2, 16 << 4)])
+    # ZRLE: palette sizes around the limits, tiles 64/65, runs across rows, input buffer 16384 overrun
+    for n in (2, 3, 4, 5, 16, 17, 126, 127, 128):
+        mk(rng.choice([2, 4]), 65, 65, "zrle", rng.choice(["server", "rgb888le", "rgb555le", "rgb565be", "bgr233"]),
+           [("pal", n, 0), ("runs", n, 3 << 4)], extra_enc=(-256 + rng.randint(0, 9),))
+    mk(4, 300, 230, "zrle", "server", [("noise", 1, 0), ("tiles", 5, 64 << 4)])
+    mk(4, 2100, 5, "zrle", "rgbx_le", [("runs", 17, 300 << 4)])
+    # Zlib / Ultra: row splitting (32768-pixel pieces), tiny rectangles sent raw
+    mk(4, 300, 230, "zlib", "server", [("photo", 1, 0), ("flat", 1, 0)], extra_enc=(-256 + 9,), reqs=[(0, 0, 300, 230), (3, 3, 2, 2), (0, 0, 4, 1)])
+    mk(2, 1100, 61, "zlib", "rgb888le", [("tiles", 4, 16 << 4)], extra_enc=(-256 + 1,))
+    mk(4, 300, 230, "ultra", "server", [("photo", 1, 0), ("tiles", 4, 16 << 4)])
+    mk(1, 8192, 9, "ultra", "bgr233", [("runs", 6, 0)])
+    # Tight: > 2048 wide, > 65536 pixels, solid-area search (LastRect), mono / indexed / full colour, all levels
+    for lvl in (0, 1, 2, 9):
+        mk(4, 2100, 40, "tight", rng.choice(["server", "rgb888le", "rgb565le"]),
+           [("blocks", 3, 30 << 4), ("pal", 2, 0), ("tiles", 6, 16 << 4)], extra_enc=(-256 + lvl, LASTRECT))
+        mk(rng.choice([2, 4]), 300, 230, "tight", rng.choice(["server", "bgr888be", "rgb555le", "bgr233"]),
+           [("outlier", 3, 3 << 4), ("pal", 200, 0), ("photo", 1, 0)], extra_enc=(-256 + lvl,))
+    mk(4, 300, 230, "tightpng", "rgb888le", [("tiles", 5, 16 << 4), ("photo", 1, 0)], extra_enc=(-256 + 3, LASTRECT))
+    mk(2, 129, 65, "tightpng", "rgb565le", [("tiles", 5, 16 << 4)], extra_enc=(-256 + 0,))
+    # TightPng image bigger than the buffer sized for a 16-bpp client (afterEncBuf overflow, fixed)
+    mk(2, 2100, 33, "tightpng", "server", [("noise", 1, 0)], extra_enc=(-256 + rng.choice([0, 1]),), reqs=[(0, 0, 2100, 32), (0, 0, 2100, 33)])
+    mk(4, 300, 230, "tightpng", "rgb555le", [("noise", 1, 0), ("photo", 1, 0)], extra_enc=(-256 + 1,))
+    return out
 
 
 # ------------------------------------------------------------------ running one script
@@ -285,7 +349,8 @@ def process(args):
 
     rc, out, err = run_proc(hexe, script)
     if rc != 0:
-        fail("crash", "harness exit %d" % rc, err, impl=[l[:200] for l in out[-10:]])
+        fid = "tightpng-afterencbuf-overflow" if ("pngWriteData" in err and "overflow" in err) else None
+        fail("crash", "harness exit %d" % rc, err, impl=[l[:200] for l in out[-10:]], finding=fid)
         return res
     ops, ok = split_ops(script, out)
     if not ok:
@@ -308,6 +373,12 @@ def process(args):
             fail("crash" if "client-closed" in info else "exact", "harness answered %r to %r" % (info[-1], op),
                  "the server closed the connection or refused the op")
             return res
+        for l in info:
+            if l.startswith("fmtinfo "):
+                fmt = D.Fmt(*[int(v) for v in l.split()[1:11]])
+                if fmt.depth > 24 and fmt.bpp == 32:
+                    res["stats"]["enc"]["(sessions with depth>24 format: CPIXEL by de-facto rule)"] = \
+                        res["stats"]["enc"].get("(sessions with depth>24 format: CPIXEL by de-facto rule)", 0) + 1
         if t[0] == "fmt":
             f = tuple(int(v) for v in t[1:11])
             fmt = D.Fmt(*(BGR233 if not f[3] else f))
@@ -346,13 +417,35 @@ def process(args):
         # coverage: the rectangles sent must tile the update region (area check + containment)
         area_s = sum(s[2] * s[3] for s in snaps)
         area_r = sum(r["w"] * r["h"] for r in rects)
+        cover_bad = None
         if area_s != area_r:
-            fail("oracle", "rectangles sent cover %d pixels, update region has %d" % (area_r, area_s), op,
+            cover_bad = "rectangles sent cover %d pixels, update region has %d" % (area_r, area_s)
+        else:
+            # exact tiling: every pixel of every region rectangle is sent exactly once
+            maps = [bytearray(s[2] * s[3]) for s in snaps]
+            for r in rects:
+                for k, s_ in enumerate(snaps):
+                    if s_[0] <= r["x"] and s_[1] <= r["y"] and r["x"] + r["w"] <= s_[0] + s_[2] and r["y"] + r["h"] <= s_[1] + s_[3]:
+                        one = b"\x01" * r["w"]
+                        for yy in range(r["y"] - s_[1], r["y"] - s_[1] + r["h"]):
+                            o = yy * s_[2] + (r["x"] - s_[0])
+                            if maps[k][o:o + r["w"]] != bytes(r["w"]):
+                                cover_bad = "pixel row sent twice (rectangle %d,%d %dx%d overlaps an earlier one)" % (r["x"], r["y"], r["w"], r["h"])
+                            maps[k][o:o + r["w"]] = one
+                        break
+            if cover_bad is None and any(0 in m for m in maps):
+                cover_bad = "some pixels of the update region are in no rectangle"
+        if cover_bad:
+            fail("oracle", cover_bad, op,
                  impl=["rects " + " ".join("%d,%d,%d,%d" % (r["x"], r["y"], r["w"], r["h"]) for r in rects[:50])])
         if intended == 4 and driver_ok:
             lean_lines.append("split corre %d %d " % corre_max + " ".join("%d %d %d %d" % s[:4] for s in snaps))
             lean_expect.append(("rects " + " ".join("%d,%d,%d,%d" % (r["x"], r["y"], r["w"], r["h"]) for r in rects),
                                 op, "CoRRE rectangle splitting", None))
+        if intended in (6, 9) and driver_ok:
+            lean_lines.append("split zlib " + " ".join("%d %d %d %d" % s[:4] for s in snaps))
+            lean_expect.append(("rects " + " ".join("%d,%d,%d,%d" % (r["x"], r["y"], r["w"], r["h"]) for r in rects),
+                                op, "Zlib/Ultra row splitting", None))
         for r in rects:
             res["nrects"] += 1
             res["npix"] += r["w"] * r["h"]
@@ -364,6 +457,20 @@ def process(args):
             s = host[0]
             ref = sub_rect(s[4], s[0], s[1], s[2], s[3], r["x"], r["y"], r["w"], r["h"], fmt.bytespp)
             name = D.ENC_NAMES.get(r["enc"], str(r["enc"]))
+            if r["enc"] in (16, 17) and fmt.cpix() != fmt.cpix_defacto() and not res.get("cpixel_depth_reported"):
+                # the rectangle is decoded below with the rule all implementations use; by the letter of
+                # RFC 6143 (CPIXEL is 3 bytes only if depth <= 24) it is NOT decodable: known finding
+                res["cpixel_depth_reported"] = True
+                fail("oracle", "ZRLE rectangle for a 32-bpp format with depth %d > 24 uses 3-byte CPIXELs; RFC 6143 7.7.5 prescribes 4 bytes (server ignores the depth field)" % fmt.depth,
+                     op, finding="cpixel-depth")
+            if r.get("skip"):
+                # wavelet-coded tiles are not compared: copy the reference into them
+                pxa = bytearray(r["px"])
+                for (tx, ty, tw, th) in r["skip"]:
+                    D.blit(pxa, r["w"], fmt.bytespp, tx, ty, tw, th,
+                           sub_rect(ref, 0, 0, r["w"], r["h"], tx, ty, tw, th, fmt.bytespp))
+                    res["stats"]["zrle"]["zywrle_wavelet_tiles"] = res["stats"]["zrle"].get("zywrle_wavelet_tiles", 0) + 1
+                r["px"] = bytes(pxa)
             if r.get("error"):
                 fail("oracle", "%s rectangle %d,%d %dx%d is not decodable by the RFB rules: %s"
                      % (name, r["x"], r["y"], r["w"], r["h"], r["error"]), op,
@@ -386,7 +493,7 @@ def process(args):
             elif not same_pixels(fmt, r["px"], ref):
                 bad = next(i for i in range(0, len(ref), fmt.bytespp) if r["px"][i:i + fmt.bytespp] != ref[i:i + fmt.bytespp]) // fmt.bytespp
                 fid = None
-                if r["enc"] == 16 and fmt.cpix_int32_overflow() != fmt.cpix():
+                if r["enc"] == 16 and fmt.cpix_int32_overflow() != fmt.cpix_defacto():
                     try:
                         alt = D.dec_zrle_data(r["zdata"], r["w"], r["h"], fmt, None, cp=fmt.cpix_int32_overflow())
                         if same_pixels_cp(fmt, alt, ref, fmt.cpix_int32_overflow()):
@@ -410,6 +517,8 @@ def process(args):
                 pass
             lean_lines.append("fmt " + " ".join(str(v) for v in fmt.tuple()))
             lean_expect.append(("ok", None, None, None))
+            lean_lines.append("cpix defacto")
+            lean_expect.append(("ok", None, None, None))
             line = "dec %d %d %d %s" % (r["enc"] & 0xFFFFFFFF, r["w"], r["h"], r["dwire"].hex() or "-")
             if r["still"] is not None:
                 line += " " + r["still"].hex()
@@ -424,7 +533,9 @@ def process(args):
                 lean_expect.append((want_m, op, "model %s %dx%d" % (iname, r["w"], r["h"]), None))
                 res["model_rects"] += 1
     if driver_ok and lean_lines:
+        t_l = time.time()
         rc, out, err = run_proc(dexe, "\n".join(lean_lines) + "\n")
+        res["lean_s"] = time.time() - t_l
         if rc != 0 or len(out) != len(lean_expect):
             fail("exact", "Lean driver exit %d, %d/%d lines" % (rc, len(out), len(lean_expect)), err)
         else:
@@ -443,7 +554,7 @@ def uses_ultra(script):
     return any(l.startswith("enc ") and " 9" in (l + " ").replace(" 9 ", " 9  ") and "9" in l.split()[1:] for l in script.splitlines())
 
 
-MODELLED = {"raw", "rre", "corre", "hextile"}   # encodings with a faithful Lean model (Enc/Server.lean)
+MODELLED = {"raw", "rre", "corre", "hextile", "zrle", "zlib"}   # encodings with a faithful Lean model (Enc/Server.lean)
 REAL_ENCS = {0, 2, 4, 5, 6, 7, 9, 16, 17, -260}
 
 
@@ -451,7 +562,16 @@ def model_payload(r):
     return r["dwire"]
 
 
+# per-channel error bounds (0..255 scale) for the lossy variants.  Derived from measurement over the
+# content generators of this file at all seeds listed in docs/C01.md (observed maxima in the evidence,
+# `lossy_max_channel_error`), with head-room; JPEG error grows as the quality level falls.
+JPEG_BOUND = {0: 255, 1: 230, 2: 200, 3: 180, 4: 160, 5: 140, 6: 120, 7: 100, 8: 80, 9: 60}
+
+
 def lossy_bound(meta):
+    q = meta.get("quality")
+    if meta.get("enc") == "tight" and q is not None:
+        return JPEG_BOUND.get(q, 255)
     return 255
 
 
@@ -490,6 +610,17 @@ def run(ctx):
             for sb in (1, 2, 4):
                 cases.append(gen_script(ctx.rng, ctx.tier, {"enc": e, "sb": sb, "big": False}))
             cases.append(gen_script(ctx.rng, ctx.tier, {"enc": e, "big": True}))
+        for sc in boundary_scripts(ctx.rng):
+            cases.append(sc)
+        nlossy = 12 if ctx.tier == "quick" else 120
+        for k in range(nlossy):
+            cases.append(gen_script(ctx.rng, ctx.tier, {"enc": "tight", "quality": k % 10, "sb": ctx.rng.choice([2, 4, 4]),
+                                                         "fmt": ctx.rng.choice(["server", "rgb888le", "bgr888be", "rgb565le", "rgb555be"]),
+                                                         "big": False}))
+        for k in range(4 if ctx.tier == "quick" else 40):
+            cases.append(gen_script(ctx.rng, ctx.tier, {"enc": "zywrle", "quality": ctx.rng.choice([None, 1, 4, 8]), "sb": ctx.rng.choice([2, 4]),
+                                                         "fmt": ctx.rng.choice(["server", "rgb888le", "rgb565le", "rgb555le", "rgb888be"]),
+                                                         "big": False}))
         while len(cases) < n:
             cases.append(gen_script(ctx.rng, ctx.tier))
     t0 = time.time()
@@ -529,9 +660,24 @@ def run(ctx):
     }
 
 
-PARTIAL = []
-ASSUMPTIONS = []
-TRUSTED_EXTRA = []
+PARTIAL = [
+    "Tight (fill / mono / indexed / full-colour / NoZlib), TightPng, Ultra (LZO): no encoder model, no theorem; every run decodes the real output with an independent Python decoder (zlib via Python, 4 persistent Tight streams; PNG in Python; LZO via the repository's minilzo in the harness) and with the Lean Tight/Ultra container decoder, and compares with the pre-encode snapshot exactly",
+    "Tight-JPEG: per-run validation only, per-channel error bound by quality level (JPEG_BOUND in vlib/props/c01.py, measured maxima in the evidence)",
+    "ZYWRLE: per-run validation of the container and of every tile that is not wavelet-coded (exact); wavelet-coded raw tiles are only checked for well-formedness (no inverse transform, no error bound)",
+    "rectangle splitting of CoRRE / Zlib / Ultra is modelled (correSplit, zlibSplit) and compared with the wire on every run, but 'the pieces tile the rectangle' is not a theorem (the run checks area and containment)",
+    "the model abstracts zrlePaletteHelper's hash table to 'index of first occurrence in the palette list'",
+    "translation to the client's pixel format (translate.c) is trusted here (subject of C10): the snapshot is produced by the harness's own call of cl->translateFn on the whole rectangle",
+]
+ASSUMPTIONS = [
+    "zlib: a deflate stream flushed with Z_SYNC_FLUSH, fed chunk by chunk to a persistent inflate stream, yields exactly the input (ZLaw in Enc/Containers.lean); LZO1X, libjpeg, libpng likewise trusted",
+    "pixels handed to the encoders fit their bytes (PixOK / CPixOK): for CPIXEL formats the byte that is not transmitted is zero in translated pixels; an untranslated 32-bpp framebuffer may carry garbage there, the run compares on the colour bits only",
+    "little-endian host (the models read client-format buffers the way a little-endian uintN_t* does)",
+    "Raw/RRE-fallback cannot send lines longer than UPDATE_BUF_SIZE bytes (the server closes the client): generators keep w*bytespp <= 32768; see docs/C01.md",
+]
+TRUSTED_EXTRA = [
+    "independent Python decoder vlib/props/c01_dec.py (direct oracle), Python's zlib module, libjpeg and the repository's minilzo (LZO1X decompressor) as codecs in the harness",
+    "cl->translateFn (C10's subject) for the reference snapshot",
+]
 
 META = {
     "technique": "Lean 4 theorems (spec decoders; decode∘encode = id for reference and faithful server encoder models) + per-run differential validation of the real encoders against an independent decoder, the Lean spec decoder and the Lean encoder models",
